@@ -64,6 +64,14 @@ def mon_key(pid, msg):
     return f"{pid}:{msg[:40]}"
 
 
+def alloc_bound_tight(input_len, sizeof_state, states):
+    """peak heap of from_str on a string of `input_len` bytes whose decompressed prefix lets a streaming decoder
+    complete `states` states: the 1 MiB read buffer, copies of the input (base64 + compressed), serde's cautious
+    preallocation (at most 1 MiB), the states actually built with Vec doubling (old + new buffer during a
+    reallocation: 3x), and slack for the inner vectors of those states"""
+    return MAX + 4 * input_len + (1 << 20) + 3 * (states + 2) * sizeof_state + 64 * states + (1 << 19)
+
+
 def alloc_bound(input_len, sizeof_state):
     # 1 MiB read buffer + base64/compressed copies of the input + the state vector bincode can
     # build from at most MAX bytes (>= 16 bytes per state; Vec doubling, old+new buffer live
@@ -109,7 +117,12 @@ def run(pid, tier, seed, replay, ctx):
         if rc != 0:
             dis.append(f"driver failed on {name}: {out[-500:]}")
             continue
-        # supporting evidence: peak allocation during from_str (measured by the harness)
+        states_of = {}
+        for line in out.split("\n"):
+            ws = line.split()
+            if len(ws) == 3 and ws[0] == "states":
+                states_of[ws[1]] = int(ws[2])
+        # peak allocation during from_str (measured by the harness with a counting allocator)
         sizeof_state = 1024
         for cid, lines in blocks.items():
             for l in lines:
@@ -118,10 +131,14 @@ def run(pid, tier, seed, replay, ctx):
                     peaks.append((int(ws[1]), int(ws[2]), cid))
                     if len(ws) > 3:
                         sizeof_state = int(ws[3])
-                    bound = alloc_bound(int(ws[2]), sizeof_state)
+                    # the driver tells how many states a streaming decoder can complete from what was read
+                    # (`states <case> <k>` lines); without that line the coarse bound applies
+                    k = states_of.get(cid)
+                    bound = alloc_bound(int(ws[2]), sizeof_state) if k is None else alloc_bound_tight(int(ws[2]), sizeof_state, k)
                     if int(ws[1]) > bound:
-                        msg = f"allocation: from_str peak {ws[1]} bytes for a {ws[2]}-byte string exceeds {bound}"
-                        mons.append((mon_key(pid, msg), f"monitor {pid} failed on the implementation: {msg}\n" + inputs_only(lines)))
+                        msg = (f"allocation: from_str peak {ws[1]} bytes for a {ws[2]}-byte string exceeds {bound}"
+                               + ("" if k is None else f" (a decoder can complete {k} states from the bytes read)"))
+                        mons.append((mon_key(pid, re.sub(r"[0-9]+", "N", msg)), f"monitor {pid} failed on the implementation: {msg}\n" + inputs_only(lines)))
         seen = 0
         for line in out.split("\n"):
             ws = line.split()
